@@ -13,11 +13,16 @@ CellsOf(nb) == [b \in 1..nb |-> ClassPattern[b] + 1]
 
 AscLists(S) == {s \in UNION {[1..n -> S] : n \in 1..Cardinality(S)} : \A i, j \in DOMAIN s : i < j => s[i] < s[j]}
 
+\* ascending but not strictly: lists of two or three entries in which an index is REPEATED
+RepLists(S) == {s \in UNION {[1..n -> S] : n \in 2..3} : (\A i, j \in DOMAIN s : i < j => s[i] <= s[j]) /\ (\E i, j \in DOMAIN s : i < j /\ s[i] = s[j])}
+
 FSelsAll ==
      {[k |-> "name", v |-> Names[i]] : i \in 1..NF} \cup {[k |-> "name", v |-> "zz"]}
   \cup {[k |-> "int", v |-> i] : i \in (-NF - 1)..NF}
   \cup {[k |-> "ilist", v |-> s] : s \in AscLists(0..(NF - 1))}
   \cup {[k |-> "nlist", v |-> [i \in DOMAIN s |-> Names[s[i] + 1]]] : s \in AscLists(0..(NF - 1))}
+  \cup {[k |-> "ilist", v |-> s] : s \in RepLists(0..(NF - 1))}
+  \cup {[k |-> "nlist", v |-> [i \in DOMAIN s |-> Names[s[i] + 1]]] : s \in RepLists(0..(NF - 1))}
   \cup {sl \in {[k |-> "slice", a |-> a, b |-> b, s |-> s] :
                    a \in {NoneV} \cup 0..NF, b \in {NoneV} \cup 0..(NF + 1), s \in {NoneV, 1, 2}} :
           PySlice(sl.a, sl.b, sl.s, NF) # <<>>}
